@@ -87,6 +87,9 @@ func (s *standalone) pick(slot uint16) *singleClient {
 		return s.replicas[rIndex-1]
 	}
 
+	if len(s.replicas) == 0 { // EnableRedirect without replicas: SendToReplicas has nothing to choose from
+		return s.primary.Load()
+	}
 	if len(s.replicas) == 1 {
 		return s.replicas[0]
 	}
